@@ -20,7 +20,7 @@ RULE = (
     "pairwise different so that swapped or dropped arguments change the answer), a pseudocritical point and a "
     "pressure array (1..8 values around the bubble point); every method is compared with the stand-alone "
     "correlation; in half of the cases the object's fields are then reassigned and every method is compared again.  'table': build_pvt_gas for a generated composition (N2/H2S/CO2 0..0.15, gravity 0.55..1.2, "
-    "80..400 F, both dryness settings) and maximum pressure 25..3000 psia in quick, ..14000 in thorough (multiples of "
+    "80..400 F, both dryness settings) and maximum pressure 10.5 (a one-row table) ..3000 psia in quick, ..14000 in thorough (multiples of "
     "10 and not); every row is recomputed with the stand-alone correlations. 'sutton': reductions of the "
     "pseudocritical point (no contaminants, zero-fraction extra component, unknown dryness). Non-trivial = a "
     "fluid case with >= 2 pressures, a table with >= 3 rows, or any sutton case. Distinct = hash of the case record."
